@@ -166,7 +166,7 @@ def runProgram (forms : List Sexp) (withVals : Bool) : String :=
   let rm := expandM defaultFuel p
   let rs := expandS defaultFuel p
   let mforms := rm.map (·.1)
-  let cls := match rm with | .ok (_, fl) => flagsStr fl | .error _ => "?"
+  let cls := match rm with | .ok (_, fl) => flagsStr fl | .error _ => "?" ++ flagsStr (staticFlags p)
   let alpha := match mforms, rs with
     | .ok a, .ok b => toString (alphaEq a b)
     | .error e1, .error e2 => if errStr e1 == errStr e2 then "err-both" else "false"
